@@ -6,7 +6,7 @@ props = [json.loads(l) for l in open(os.path.join(ROOT, "properties.jsonl"))]
 
 TECH = "deterministic simulation with fault injection (seeded schedule/fault search over the real code in a testing/synctest bubble)"
 
-SIG_NOTE = "Trusts: go1.26.8 toolchain with a three-file runtime overlay (seeded select/map/timer-tie order), patched util/broadcast (simulated mutex), the simulated message streams standing in for srpc/yamux/QUIC streams. Interleavings only at simulator-owned points (deliveries, armed scheduling points, operations, faults, ticks). Sampling, not proof."
+SIG_NOTE = "Trusts: go1.26.8 toolchain with a five-file runtime overlay (seeded select/map/timer-tie order, no time-slice preemption, mutex waits durably blocked), patched util/broadcast (simulated mutex), the simulated message streams standing in for srpc/yamux/QUIC streams. Interleavings only at simulator-owned points (deliveries, armed scheduling points, operations, faults, ticks). Sampling, not proof."
 
 def sim(text, ref, oracle, note=SIG_NOTE):
     return dict(text=text, note=note, ref=ref, technique=TECH + "; oracle: " + oracle)
@@ -28,18 +28,18 @@ CLAIMED = {
             "5 (C25)", "uniqueness invariant at quiescence + replaced-error check + empty-state check at the end"),
 
  "C08": sim("Real rwc.PacketConn pairs and stream_packet.Session pairs over a simulator-owned byte stream with driver-chosen chunking (split inside the length prefix, coalesced frames), per-run max sizes, queue depths and reader buffer sizes, raw zero/over-limit/huge length prefixes followed by further frames, EOF or reset mid-frame, slow readers; the k-th read must return exactly the k-th written packet, nothing after an invalid prefix.",
-            "5 (C08)", "refinement against the exact written packet sequence, per read", "Trusts go1.26.8 + runtime overlay and the simulated byte stream as a faithful io.ReadWriteCloser; writers run at driver steps (a frame is written by one Write call, so writer interleaving below frame granularity does not exist in the code). Sampling, not proof."),
+            "5 (C08)", "refinement against the exact written packet sequence, per read", "Trusts go1.26.8 + runtime overlay and the simulated byte stream as a faithful io.ReadWriteCloser; in the main scenario writers run at driver steps; the concurrent-writers scenario runs 2-3 SendMsg tasks per side over a flow-controlled Write (scheduling point in the middle of every Write). Sampling, not proof."),
  "C09": sim("Real rwc.Conn pairs over the simulated byte stream: chunked delivery, partial underlying writes, read buffers from 1 byte up, per-run queue depth, EOF/reset at arbitrary offsets, final data returned together with the terminal error; every Conn.Read is matched against the pump chunk it must correspond to (byte cursor model).",
             "5 (C09)", "byte-cursor reference model checked on every read + byte conservation at quiescence", "Same trusted base as C08."),
- "C31": sim("Part (a) of the property: the real solicited-stream value under 2-4 concurrent callers of Accept/Close/IsAccepted with the driver deciding every interleaving at the scheduling points before each mutex acquisition; linearizability against the sequential model {accepted, closed} with porcupine, plus the single-owner and never-close-an-accepted-stream invariants. Part (b), in one run of three: the C30 world with several local solicitations (different constraints, or colliding classes) matching one incoming stream; each stream end may be accepted by at most one of them.",
+ "C31": sim("Part (a) of the property: the real solicited-stream value under 2-4 concurrent callers of Accept/Close/IsAccepted with the driver deciding every interleaving at the scheduling points before each mutex acquisition; linearizability against the sequential model {accepted, closed} with porcupine, plus the single-owner and never-close-an-accepted-stream invariants; the underlying stream's Close is itself a scheduling point (a Close that blocks while the value's mutex is held or not). Part (b), in one run of three: the C30 world with several local solicitations (different constraints, or colliding classes) matching one incoming stream; each stream end may be accepted by at most one of them.",
             "5 (C31)", "porcupine linearizability of the recorded history + invariants", "Trusts porcupine v1.3.0 and the hook placement."),
  "C33": sim("Real hold-open controller and handler against a fake directive instance with exact strong-reference accounting; value-added/removed callbacks for 1-3 links overlap across links (never reordered within one link) and the asynchronous reference acquisition lands at a driver-chosen later point; at quiescence a strong reference is held iff links exist.",
             "5 (C33)", "equivalence (refs>0 iff links>0) at quiescence", "Trusts the fake directive.Instance as a faithful stand-in for controllerbus reference counting; callbacks of one value are serialized as a real bus does."),
- "C39": sim("Real key-file loader against a scratch directory that the simulator puts into every state a crash during the non-atomic, non-fsynced write (any prefix, empty, missing) or an operator (garbage, other PEM types, directory, path below a file, symlink loop, dangling symlink, over-long name) can leave; sequences of loads and faults from the tape; every load must return a usable key or an error, and identities must be stable across reloads.",
+ "C39": sim("Real key-file loader against a scratch directory that the simulator puts into every state a crash during the non-atomic, non-fsynced write (any prefix, empty, missing) or an operator (garbage, other PEM types, directory, path below a file, symlink loop, dangling symlink, over-long name, missing parent directory, dangling symlink into a missing directory; read-only directory and mode-000 file when not running as root) can leave; sequences of loads and faults from the tape; every load must return a usable key or an error, and identities must be stable across reloads.",
             "5 (C39)", "key-or-error invariant + identity stability against the file-state model", "Crash points are modelled on the resulting file content; no fault is injected inside os.ReadFile/os.WriteFile (no file-system seam). No concurrency dimension."),
 
- "C06": sim("One real bus with the real transport controller over a simlink transport; the harness plays the transport and issues establish / duplicate / same-UUID replacement / loss / duplicate loss / loss of unknown links as overlapping transport callbacks, the loss report owed after each system Close arrives at a driver-chosen later point, readers hold the controller lock while parked so that the TryLock fast path fails; at every quiescent point GetPeerLinks, watcher directive values and both internal tables must equal the per-object reference model (established and not yet lost), lost links must be closed, and a live link may only be closed for a cause.",
-            "5 (C06)", "refinement against a per-object liveness model at quiescence + close-cause invariant", "Trusts the simlink stub as a well-behaved link (one loss report per Close) and the patched util/broadcast; controllerbus internals run real but their interleavings are repeated, not explored. The quic.Transport clauses of the property are not simulated yet."),
+ "C06": sim("One real bus with the real transport controller over a simlink transport; the harness plays the transport and issues establish / duplicate / same-UUID replacement / loss / duplicate loss / loss of unknown links as overlapping transport callbacks, the loss report owed after each system Close arrives at a driver-chosen later point, readers hold the controller lock while parked so that the TryLock fast path fails; at every quiescent point GetPeerLinks, watcher directive values and both internal tables must equal the per-object reference model (established and not yet lost), lost links must be closed, and a live link may only be closed for a cause. One run in twelve is the QUIC scenario: a listener and three dialers contending for one source address (address takeover fault, N restarted under the same identity, another identity on the same address), real quic.Transport + pconn + quic-go + TLS under the real controller over the simulated datagram network, dials in both directions, application Close, clock jumps beyond the idle timeout, packet faults; at every step with nothing parked the controller's tables, the transport's address table and the set of reported-and-not-closed links must agree.",
+            "5 (C06)", "refinement against a per-object liveness model at quiescence + close-cause invariant", "Trusts the simlink stub as a well-behaved link (one loss report per Close) and the patched util/broadcast; controllerbus internals run real but their interleavings are repeated, not explored. In the QUIC scenario quic-go/TLS goroutine interleavings are repeated per seed, not explored."),
 
  "C04": sim("One real bus with two real transport controllers (local peers S1, S2) over simlink transports; links to three remote identities, self-links and S1<->S2 links are established and lost, EstablishLinkWithPeer directives with every combination of source (none, S1, S2, a stranger) and destination are added and released, incoming streams with valid headers are injected; every value ever emitted and every mounted stream delivered is checked against the link it belongs to, and at quiescence each directive's value set must equal the live links between exactly the requested peers.",
             "5 (C04)", "per-value invariant + set equality with the reference model at quiescence", "Trusts the simlink stub; expiry of unreferenced links after the hold-open period is modelled as a loss."),
@@ -60,9 +60,9 @@ CLAIMED = {
             "5 (C36)", "alternation invariant on the response stream + equality with the provider count at quiescence", "Trusts go1.26.8 + runtime overlay; directive callbacks run under the bus lock and are not scheduling points (their interleaving with the server loop is decided by operation order and fake time only)."),
 
  "C03": sim("Three honest full nodes with the real pconn/QUIC transport, real TLS and quic-go over the simulator's datagram network, plus a harness-built forger endpoint presenting crafted certificate chains (valid control, copied extension, no extension, corrupt ASN.1, wrong signer, two certificates); honest dials under address rebinding, direct HandleConn dial/listen pairs with the expected peer empty, right or wrong; packet loss, duplication, reordering, corruption and clock jumps; every link any transport reports must name an identity that an endpoint which really sent the packets from the link's remote address can prove, a wrong expected peer must give an error and no link.",
-            "5 (C03)", "invariant on every reported link against the packet network's ground truth", "Trusts go1.26.8 + four-file runtime overlay (seeded select/map/timer order, no time-slice preemption), testing/cryptotest for repeatable crypto randomness, and the simulated datagram network as a faithful net.PacketConn; quic-go and crypto/tls internals run real, their goroutine interleavings are repeated per seed, not explored. websocket and WebRTC front-ends are not run."),
+            "5 (C03)", "invariant on every reported link against the packet network's ground truth", "Trusts go1.26.8 + five-file runtime overlay (seeded select/map/timer order, no time-slice preemption, mutex waits durably blocked), testing/cryptotest for repeatable crypto randomness, and the simulated datagram network as a faithful net.PacketConn; quic-go and crypto/tls internals run real, their goroutine interleavings are repeated per seed, not explored. websocket and WebRTC front-ends are not run."),
  "C05": sim("Dialer node, wanted peer X and an impostor I on the QUIC world; the address of X is rebound to I and back before, during and after DialPeerAddr(X, addr) and EstablishLinkWithPeer(X) requests, with bounded packet faults, dial cancellation and clock jumps; every successful dial for X must return a link authenticated as X, every directive value must be a link to X, and after the last fault (X owns its address, impostor gone) a fresh request for X must be satisfied within five simulated minutes under a fair schedule.",
-            "5 (C05)", "safety invariant on dial results + bounded liveness after heal", "Trusts go1.26.8 + four-file runtime overlay (seeded select/map/timer order, no time-slice preemption), testing/cryptotest for repeatable crypto randomness, and the simulated datagram network as a faithful net.PacketConn; quic-go and crypto/tls internals run real, their goroutine interleavings are repeated per seed, not explored. websocket and WebRTC front-ends are not run."),
+            "5 (C05)", "safety invariant on dial results + bounded liveness after heal", "Trusts go1.26.8 + five-file runtime overlay (seeded select/map/timer order, no time-slice preemption, mutex waits durably blocked), testing/cryptotest for repeatable crypto randomness, and the simulated datagram network as a faithful net.PacketConn; quic-go and crypto/tls internals run real, their goroutine interleavings are repeated per seed, not explored. websocket and WebRTC front-ends are not run."),
 }
 
 NA_PURE = {
